@@ -615,7 +615,7 @@ Proof.
   - (* start timer *)
     unfold s, c5_sig_loststart. cbn [c5_mk c5_op c5_pre c5_now full_step].
     split.
-    + intros Hsig. rewrite orb_false_r in Hsig.
+    + intros Hsig.
       destruct (start_count_timer now f Hnd Hs He (chained_fixed_false _ Hsig)) as (Hc & _).
       apply start_check_of_count with (U (f_dts f) - U (f_dts (fst (do_dt_start_timer now f)))).
       * exact Hc.
